@@ -25,6 +25,10 @@
    THE INITIAL STATE: a line outside blocks that mentions <<<STATE_0>>> / <<<state_0>>> (InitLine) is part of the syntax: the first
    stage, filterInitialState, rewrites exactly these lines (first row's start state, as it is / lowerCamelCase), every later stage
    and phase leaves the result alone; covered by C16_engine_is_ref(_table) (el_first of the element record = getfirststate).
+   THE BOOST::SML TABLE: a line  pre <<<TTT_BOOST_SML>>>  /  pre <<<TTT_BOOST_SML_ENTRY_EXIT>>>  (TableLine) is part of the syntax: its
+   single-tag stage replaces it by what smgen.innerexpand_sml prints (Model/EngineSM.sml_print, with pre as indentation); the
+   reference is that printer, whose text is characterised in Props/C09.v (C09_engine_text: header line + the text of gen_sml's
+   items).  The other table printers (PLANT_UML, MSM, MSMLITE) stay unmodelled: a template that reaches them is outside.
    STILL PARTIAL: signature / member / documentation / attribute tags are not modelled; the shipped TEMPLATEStateMachine.py /
    TEMPLATEInternals.cs as whole files are outside the grammar for that reason.  block_wf keeps three
    conditions that are evaluated per (template, table): substituted names carry no '<' '>', no expanded copy is whitespace
@@ -200,6 +204,18 @@ Theorem C16_engine_is_ref : forall m dict t,
   engine16 m dict t = Some (ref16 (elements_of_model m) t).
 Proof. exact engine16_is_ref. Qed.
 Print Assumptions C16_engine_is_ref.
+
+(* USER TAGS OUTSIDE BLOCKS.  A line outside blocks with user tags <<<name>>> / <<<name=default>>> (UserLine; e.g.
+   #define SM_THREAD_<<<StateMachineThread=1>>>) passes the expander stages as it stands and gets its values in the user-tag phase
+   (C17_usertag: assigned -> value, else the default, else verbatim).  For every model, every ASSIGNMENT a of user tags and any
+   template lines that the first filtering turns into a template of the grammar admitted for the element lists and a (a user
+   line, after substitution, is not a FOR line: computed): the generated file is the reference expansion with el_user = a. *)
+Theorem C16_generate_user : forall m dict t (a : usertags),
+  in_grammar16 t = true -> wf_elements16 t (with_user a (elements_of_model m)) = true ->
+  forall lines, load_file dict lines = Some (render16 t) ->
+  generate_file m dict a lines = Some (ref16 (with_user a (elements_of_model m)) t).
+Proof. exact generate_is_ref. Qed.
+Print Assumptions C16_generate_user.
 
 (* ... and with the element lists read off the transition table in first-appearance order *)
 Theorem C16_engine_is_ref_table : forall tt structs protos msgs m dict t,
